@@ -126,13 +126,29 @@ def slice_pos(e):
                 return slice_pos(e[2][0])
     if e[0] == 'cast' and 'Unsize' in e[1]:
         return slice_pos(e[2])
+    g = get_call(e)
+    if g is not None and g[1][0] == 'agg' and g[1][1].endswith(('RangeFrom::RangeFrom', 'Range::Range')):
+        # (slice.get(lo..hi) as Some).0
+        root, off = slice_pos(g[0])
+        return root, lin_add(off, lin(g[1][2][0]))
     return e, ({}, 0)
+
+
+def get_call(e):
+    """e = (slice.get(ix) as Some).0  ->  (slice, ix)   (ix a position or a range aggregate)"""
+    if e[0] == 'fld' and e[2] == '0' and e[1][0] == 'as' and e[1][2] == 'Some' and e[1][1][0] == 'call' and \
+            (e[1][1][1] or '').startswith('core::slice::<impl [T]>::get') and (e[1][1][1] or '').rsplit('::', 1)[-1] == 'get' and len(e[1][1][2]) == 2:
+        return e[1][1][2][0], e[1][1][2][1]
+    return None
 
 
 def slice_len(e):
     e = strip_ref(e)
     while e[0] in ('deref', 'ref'):
         e = strip_ref(e[1])
+    g = get_call(e)
+    if g is not None and g[1][0] == 'agg' and g[1][1].endswith('Range::Range'):
+        return lin_add(lin(g[1][2][1]), lin(g[1][2][0]), -1)
     if e[0] == 'call':
         fn = e[1] or ''
         short = fn.rsplit('::', 1)[-1]
@@ -157,6 +173,12 @@ def load_pos(e):
     if e[0] == 'deref' and e[1][0] == 'call' and (e[1][1] or '').endswith(('::get_unchecked', '::get_unchecked_mut')) and len(e[1][2]) == 2:
         root, off = slice_pos(e[1][2][0])
         return root, lin_add(off, lin(e[1][2][1]))
+    if e[0] == 'deref':
+        g = get_call(e[1])
+        if g is not None and g[1][0] != 'agg':
+            # *(slice.get(i) as Some).0
+            root, off = slice_pos(g[0])
+            return root, lin_add(off, lin(g[1]))
     return None
 
 
@@ -696,6 +718,24 @@ class Scanner:
             is_assert = ev[0] == 'assert'
             if isinstance(cond, tuple) and cond[0] == 'variant':
                 scrut = cond[1]
+                if scrut[0] == 'call' and (scrut[1] or '').startswith('core::slice::<impl [T]>::get') and (scrut[1] or '').rsplit('::', 1)[-1] == 'get' and \
+                        len(scrut[2]) == 2 and lab in ('Some', 'None'):
+                    # slice.get(i) is Some exactly when i < len; slice.get(lo..hi) when hi <= len
+                    sl_, ix_ = self.expand(scrut[2][0]), self.expand(scrut[2][1])
+                    if ix_[0] == 'agg' and ix_[1].endswith('Range::Range'):
+                        syn = ('bin', 'Le', ix_[2][1], ('len', strip_ref(sl_)))
+                    elif ix_[0] == 'agg':
+                        syn = None
+                    else:
+                        syn = ('bin', 'Lt', ix_, ('len', strip_ref(sl_)))
+                    if syn is not None:
+                        try:
+                            dd = self.len_cmp(syn, base)
+                        except Exception:
+                            dd = None
+                        if dd is not None:
+                            self.apply_d(st, dd[0], dd[1], lab == 'Some')
+                    continue
                 if pending_skip is not None and scrut == pending_skip[0]:
                     callexpr, k, cbb, pos = pending_skip
                     if k is None:
